@@ -23,7 +23,7 @@
 // sequence number q passes the value q*16+p as argument p (types by position: Elem, long, int, Elem, u64, double, const Elem&, const long*); every slot
 // compares every argument it received. Per-arity observation counters are kept locally and flushed at the end (emit/connect/disconnect/invoked/... _arity_K).
 // Twin signals: every arity has a SECOND signal member with the same signature (sigKb next to sigK, 18 signal keys in all) and every emitter object has three
-// signal indexes (the generator uses the first NS = 1..3 of them). Which signal stands behind an index is drawn per emitter object from the seeded stream
+// signal indexes (random tuples use the first NS = 1..3 of them; the "connect-again" action may connect the focus slot to a twin signal beyond NS). Which signal stands behind an index is drawn per emitter object from the seeded stream
 // (drawSignals): an index is either a fresh arity or the twin of an earlier index, and a case may restrict the arities to a palette of 2..3 so that several
 // emitters carry signals of the same arity. The listener slots aK/bK fit both sigK and sigKb, hence the SAME listener slot gets connected to two different
 // signals of ONE emitter and to same-arity signals of different emitters. The listener keeps one (signal, slot) list per emitter for all of that emitter's
